@@ -129,6 +129,13 @@ def main(ctx):
     progs = []
     for i in range(150 if ctx.quick else 2000):
         progs.append(pass_through(fixed if i % 2 == 0 else rng))
+    # one small program per key / operand spelling: values that are equal for the host (True == 1 == 1.0, False == 0 == -0.0, '1' vs 1)
+    # but distinct in JavaScript - anything memoised per process under a host-equality key shows up as a dependence on what ran before
+    KEYS = ["true", "false", "0", "1", "-0", "1.0", "'0'", "'1'", "'true'", "null", "undefined", "NaN", "0.5", "'0.5'", "2 > 1", "1 > 2", "[1]", "'01'", "1e0", "!0", "!1", "+true", "1 * 1", "'1' * 1"]
+    for k in KEYS:
+        progs.append("var o = {true: 'T', false: 'F', 0: 'zero', 1: 'one', 'null': 'N', 'undefined': 'U', 'NaN': 'nan', '0.5': 'half', '01': 'oct'}; var a = [10, 20]; "
+                     "log(o[%s], a[%s], typeof (%s), String(%s), (%s) + '', [%s].join(), JSON.stringify(%s), (%s) === 1, (%s) == 1, 1 / (%s)); 'done'" % ((k,) * 10))
+        progs.append("var m = {}; m[%s] = 'set'; log(Object.keys(m), m[%s]); var s = 'ab'; log(s[%s], s.charAt(%s), [5, 6].indexOf(%s), Math.max(%s, 0), (%s) | 0); 'done'" % ((k,) * 7))
     # refusals at the size limits: which operand is reported must not depend on set iteration order either
     for n in (250, 257, 300):
         names = ["v%d" % i for i in range(n)]
